@@ -94,6 +94,10 @@ def oracle(ctx, label, data, o, names):
         seen = set()
         for ev, org in o.missing:
             key, what = classify(o, ev, org)
+            if de.name_not_nfkc_stable(o):
+                key, what = "global-name-not-nfkc-stable", (
+                    "a global whose module / attribute name changes under NFKC (fullwidth letters, decomposed accents, "
+                    "ligatures, micro sign): read back as source text the decompile names the folded identifier")
             if de.scheme_name_collision(o):
                 key, what = "global-name-captures-decompiler-variable", (
                     "a global whose attribute name is _varN / result / UNPICKLER is captured by the "
@@ -103,6 +107,19 @@ def oracle(ctx, label, data, o, names):
             seen.add(key)
             agg.violation(key, what, diffrun.witness(label, data, names, decompile=o.src[:600],
                                                      missing_event=str(ev)[:300]))
+    # names outside ASCII: the decompile's import *nodes* name exactly what the VM imports (source text cannot be
+    # trusted to say so: Python's parser NFKC-folds identifiers when it reads the text back)
+    if o.module is not None:
+        import ast as _ast
+        named = [(refvm.norm_global(n.module or "", a.name)) for n in _ast.walk(o.module) if isinstance(n, _ast.ImportFrom) for a in n.names]
+        for ev in o.ref_log.events:
+            if ev[0] == "import" and not (ev[1] + ev[2]).isascii() and ev[1] != "builtins":
+                agg.count("non_ascii_import_nodes_checked")
+                if (ev[1], ev[2]) not in named:
+                    agg.violation("import-node-names-another-global",
+                                  f"the VM imports {ev[1]!r}.{ev[2]!r}; no import node of the decompile names exactly that "
+                                  f"(nodes: {named[:4]})", diffrun.witness(label, data, names, decompile=o.src[:400]))
+                    break
     # "refuse, don't drop": an opcode that changed the VM's state but left fickling's untouched
     if o.lock_div is not None and o.lock_div.get("fick_noop"):
         agg.violation(f"unmodelled-op-accepted:{o.lock_div['op']}",
